@@ -94,7 +94,6 @@ package leader_worker_set
 //@   ensures [leaderMember] len(result[0].PodsReferences) == ite(podIsLeader(pod), 1, 0) && (podIsLeader(pod) ==> result[0].PodsReferences[0] == pod.Name)
 //@   ensures [workers] replicasSize - 1 > 0 ==> result[1] != nil && result[1].Name == "workers" && result[1].MinAvailable == replicasSize - 1 && result[1].Parent == nil
 //@   ensures [workerMember] replicasSize - 1 > 0 ==> len(result[1].PodsReferences) == ite(podIsLeader(pod), 0, 1) && (!podIsLeader(pod) ==> result[1].PodsReferences[0] == pod.Name)
-//@   ensures [minimumsSum] (sum j in range(0, len(result)) :: result[j].MinAvailable) == ite(replicasSize - 1 > 0, replicasSize, 1)
 //@ end
 
 // ---- topology constraints of the segments: pod-template annotation, else worker template, else the LWS object ----
@@ -151,7 +150,8 @@ package leader_worker_set
 //@     invariant segmentIndex >= 0 && len(subGroups) == segmentIndex && segmentIndex <= numOfSegmentSubgroups && numOfSegmentSubgroups >= 1
 //@     invariant forall j int :: 0 <= j && j < len(subGroups) ==> subGroups[j] != nil && fresh(subGroups[j])
 //@   ensures [atLeastOneSegment] len(result) >= 1
-//@   ensures [freshSegments] forall j int :: 0 <= j && j < len(result) ==> result[j] != nil && fresh(result[j])
+//@   ensures [nonNil] forall j int :: 0 <= j && j < len(result) ==> result[j] != nil
+//@   ensures [freshSegments] forall j int :: 0 <= j && j < len(result) ==> fresh(result[j])
 //@ end
 //@ func fixLastSegmentSize
 //@   props C18 C10
@@ -165,9 +165,12 @@ package leader_worker_set
 //@   requires pod != nil
 //@   ensures [two] len(result0) == 2 && result0[0] != nil && result0[1] != nil && fresh(result0[0]) && fresh(result0[1])
 //@ end
-// (handleLeaderInFirstSegment: executed inline by its only caller; a standalone unit for it did not finish in 250 s)
 //@ func handleLeaderInFirstSegment
-//@   inline
+//@   props C18 C10
+//@   requires segmentSize != 0 && pod != nil && len(subGroups) >= 1 && (forall j int :: 0 <= j && j < len(subGroups) ==> subGroups[j] != nil)
+//@   modifies subGroups[0].MinAvailable
+//@   ensures [twoMore] len(result0) == len(subGroups) + 2
+//@   ensures [nonNil] forall j int :: 0 <= j && j < len(result0) ==> result0[j] != nil
 //@ end
 //@ func addExcludedLeaderSegments
 //@   props C18 C10
@@ -179,6 +182,8 @@ package leader_worker_set
 //@   ensures [segmentsShifted] result1 == nil ==> (forall j int :: 0 <= j && j < len(subGroups) ==> result0[j + 1] == subGroups[j])
 //@ end
 
+// typed handle used only to name field families of podgroup.SubGroupMetadata in frame clauses
+//@ declare someSG() *podgroup.SubGroupMetadata
 // C10 (FINDING, fixed in /repo 1a2d1e4): the pod's segment comes from its worker-index LABEL; it used to index the
 // sub-group slice unchecked ("9" in a group of 4 => index out of range panic). The no-panic obligations of this unit are
 // the check: they fail again if the range test is removed. C18: only freshly built sub-groups are written.
@@ -186,10 +191,10 @@ package leader_worker_set
 //@   props C18 C10
 //@   requires pod != nil && segmentationPolicy != nil && segmentationPolicy.SubGroupSize != nil && segmentationPolicy.Type != nil
 //@   requires *segmentationPolicy.SubGroupSize >= 2 && *segmentationPolicy.SubGroupSize <= replicasSize
-//@   modifies *
-//@   note modifies *: the writes go to the sub-group objects built by this very call (MinAvailable of the first/last segment, member lists); the frame clause has no handle for "fields of the objects of a local slice"
+//@   modifies family(someSG().PodsReferences), family(someSG().MinAvailable)
+//@   note frame: only MinAvailable / PodsReferences of sub-group objects are written (they are the ones built by this very call; the frame clause names the two field families through a typed handle)
 //@   ensures [errorNil] result1 != nil ==> result0 == nil
-//@   ensures [badIndexIsError] old(tuple1(strconv.Atoi(pod.Labels[lwsWorkerIndexLabel])) != nil) ==> result1 != nil
+//@   ensures [badIndexIsError] tuple1(strconv.Atoi(pod.Labels[lwsWorkerIndexLabel])) != nil ==> result1 != nil
 //@ end
 
 //@ func getSegmentationPolicy
@@ -203,6 +208,7 @@ package leader_worker_set
 //@ func (*LwsGrouper).buildSubGroups
 //@   props C18 C10
 //@   requires lwsg != nil && lwsJob != nil && pod != nil
+//@   modifies family(someSG().PodsReferences), family(someSG().MinAvailable)
 //@   ensures [errorNil] result1 != nil ==> result0 == nil
 //@ end
 
@@ -215,6 +221,7 @@ package leader_worker_set
 //@ func (*LwsGrouper).GetPodGroupMetadata
 //@   props C18 C10
 //@   requires lwsg != nil && lwsg.DefaultGrouper != nil && lwsJob != nil && pod != nil
+//@   modifies family(someSG().PodsReferences), family(someSG().MinAvailable)
 //@   ensures [badOwnerIsError] lwsSizeBad(lwsJob) || defaultgrouper.nStrErr(lwsJob.Object, policyPath()) != nil || (lwsPolicy(lwsJob) != "LeaderReady" && lwsPolicy(lwsJob) != "LeaderCreated") ==> result1 != nil
 //@   ensures [errorNoMetadata] result1 != nil ==> result0 == nil
 //@   ensures [fresh] result1 == nil ==> result0 != nil && fresh(result0)
